@@ -157,12 +157,23 @@ func (lr *labelRes) tagNames(v ssa.Value, depth int) ([]string, bool) {
 		}
 		return lr.helperResult(sc, 0, depth)
 	case *ssa.Extract:
+		// v, ok := table[key]: the values of the table (the zero value of a miss is only used under !ok)
+		if lk, ok := x.Tuple.(*ssa.Lookup); ok && x.Index == 0 {
+			return lr.mapValueNames(lk.X, depth+1)
+		}
 		// one result of a helper with several results: union over the helper's returns at that position
 		c, ok := x.Tuple.(*ssa.Call)
 		if !ok || c.Common().StaticCallee() == nil {
 			return nil, false
 		}
 		return lr.helperResult(c.Common().StaticCallee(), x.Index, depth)
+	case *ssa.Lookup:
+		// table[key] without the ok: a miss yields the zero tag
+		ns, ok := lr.mapValueNames(x.X, depth+1)
+		if !ok {
+			return nil, false
+		}
+		return uniq(append(ns, "")), true
 	case *ssa.Phi:
 		var out []string
 		for _, e := range x.Edges {
@@ -786,7 +797,7 @@ func checkAborts(p *Prog, res *Result) {
 				switch {
 				case !reach[f]:
 					res.ok("C20-R2", construct, p.pos(ins.Pos()), "not reachable from a request entry point (start-up, leader-election callback or process exit)")
-				case f == r.Sink && what == "panic":
+				case r.inSinkChain(f) && what == "panic":
 					res.ok("C20-R2", construct, p.pos(ins.Pos()), "accepted: slot-ring capacity assertion of the event sink (more unresolved revisions than slots); not driven by request contents")
 				case what == "os.Exit" && callsRecover(f):
 					res.ok("C20-R2", construct, p.pos(ins.Pos()), "accepted: deferred panic handler (calls recover()): turns a panic that is already happening into an exit, not an abort of its own")
@@ -1471,4 +1482,52 @@ func checkRingIndexing(p *Prog, res *Result) {
 			}
 		}
 	}
+}
+
+// mapValueNames: the label names of the values of a tag table kept in a package variable that is filled by its
+// initialiser only (no other function updates the map).
+func (lr *labelRes) mapValueNames(m ssa.Value, depth int) ([]string, bool) {
+	p := lr.p
+	ld, ok := resolve(m).(*ssa.UnOp)
+	if !ok || ld.Op != token.MUL {
+		return nil, false
+	}
+	g, ok := ld.X.(*ssa.Global)
+	if !ok {
+		return nil, false
+	}
+	var out []string
+	n := 0
+	for _, f := range p.allFuncsWithInit() {
+		for _, b := range f.Blocks {
+			for _, ins := range b.Instrs {
+				switch x := ins.(type) {
+				case *ssa.Store:
+					if x.Addr != ssa.Value(g) {
+						continue
+					}
+					mk, ok := resolve(x.Val).(*ssa.MakeMap)
+					if !ok || f.Name() != "init" {
+						return nil, false
+					}
+					for _, ref := range *mk.Referrers() {
+						if mu, ok := ref.(*ssa.MapUpdate); ok {
+							ns, ok := lr.tagNames(mu.Value, depth+1)
+							if !ok {
+								return nil, false
+							}
+							out = append(out, ns...)
+							n++
+						}
+					}
+				case *ssa.MapUpdate:
+					// an update through a load of the variable, outside the initialiser
+					if l2, ok := resolve(x.Map).(*ssa.UnOp); ok && l2.X == ssa.Value(g) {
+						return nil, false
+					}
+				}
+			}
+		}
+	}
+	return uniq(out), n > 0
 }
